@@ -494,6 +494,10 @@ func (s *Server) maybeUpgrade(
 		select {
 		case <-done:
 			s.debug.Log("`done` triggered")
+		case <-socket.closeChan:
+			// The socket was closed while the upgrade was in flight. Don't leave the probing transport open.
+			s.debug.Log("Socket was closed during the upgrade")
+			t.Close()
 		case <-time.After(s.upgradeTimeout):
 			t.Close()
 			socket.onError(fmt.Errorf("eio: upgrade failed: %w", errUpgradeTimeoutExceeded))
